@@ -11,6 +11,8 @@ Local Arguments Z.sub : simpl never.
 Local Arguments Z.pow : simpl never.
 Local Arguments Z.div : simpl never.
 
+Definition always {A} (_ : A) : Prop := True.
+
 Lemma memz_In x l : memz x l = true -> In x l.
 Proof. unfold memz. rewrite existsb_exists. intros [y [Hy E]]. apply Z.eqb_eq in E. subst. exact Hy. Qed.
 
@@ -191,3 +193,57 @@ Proof.
 Qed.
 Lemma pg_sync_check_noleak h e : pg_sync_check h <> Err (Leak e).
 Proof. unfold pg_sync_check. destruct (_ =? 83); discriminate. Qed.
+
+(* ---- compose is total on parser output (needed for C05) ---------------------------------------------- *)
+Lemma slice_val_bound (h : bytes) a b : 0 <= a <= b -> b <= zlen h -> 0 <= be_val (slice h a b) < 256 ^ (b - a).
+Proof. intros H1 H2. pose proof (be_val_range (slice h a b)) as R. rewrite slice_length in R by assumption. exact R. Qed.
+
+Lemma byte_at_bound h i : 0 <= byte_at h i < 256.
+Proof. unfold byte_at. destruct (nth_error h i); [apply b2z_range|lia]. Qed.
+
+Lemma tls_record_mk_total h v : zlen h = 5 -> tls_record_check h = Ok v -> always v /\ exists h', tls_record_mk v (tls_record_plen h) = Ok h'.
+Proof.
+  intros L. unfold tls_record_check. destruct (memz (byte_at h 0) content_types) eqn:M1; cbn [negb]; [|discriminate].
+  destruct (memz (be_val (slice h 1 3)) tls_versions) eqn:M2; cbn [negb]; [|discriminate]. intros Q; apply Ok_inj in Q; subst v.
+  split; [exact I|]. unfold tls_record_mk, tls_record_plen. cbn [fst snd]. rewrite M1, M2. cbn [andb negb].
+  pose proof (slice_val_bound h 3 5 ltac:(lia) ltac:(lia)) as B. change (256 ^ (5 - 3)) with 65536 in B.
+  destruct (Z.leb_spec 65536 (be_val (slice h 3 5))); [lia|]. eauto.
+Qed.
+
+Lemma handshake_mk_total ty h v : zlen h = 4 -> handshake_check ty h = Ok v -> always v /\ exists h', handshake_mk ty v (handshake_plen h) = Ok h'.
+Proof.
+  intros L. unfold handshake_check. destruct (memz (byte_at h 0) handshake_types) eqn:M; cbn [negb]; [|discriminate].
+  destruct (Z.eqb_spec (byte_at h 0) ty) as [E|E]; cbn [negb]; [|discriminate]. intros _. split; [exact I|].
+  unfold handshake_mk, handshake_plen. rewrite <- E, M. cbn [negb].
+  pose proof (slice_val_bound h 1 4 ltac:(lia) ltac:(lia)) as B. change (256 ^ (4 - 1)) with 16777216 in B.
+  destruct (Z.leb_spec 16777216 (be_val (slice h 1 4))); [lia|]. eauto.
+Qed.
+
+Lemma mysql_mk_total h v : zlen h = 4 -> mysql_check h = Ok v -> always v /\ exists h', mysql_mk v (mysql_plen h) = Ok h'.
+Proof.
+  intros L Q. apply Ok_inj in Q. subst v. split; [exact I|]. unfold mysql_mk, mysql_plen, le_val.
+  pose proof (be_val_range (rev (slice h 0 3))) as B. unfold zlen in B. rewrite rev_length in B.
+  pose proof (slice_length h 0 3 ltac:(lia) ltac:(lia)) as SL. unfold zlen in SL. rewrite SL in B. change (256 ^ (3 - 0)) with 16777216 in B.
+  destruct (Z.leb_spec 16777216 (be_val (rev (slice h 0 3)))); [lia|].
+  pose proof (byte_at_bound h 3). destruct (Z.ltb_spec (byte_at h 3) 0); [lia|]. destruct (Z.leb_spec 256 (byte_at h 3)); [lia|]. cbn [orb]. eauto.
+Qed.
+
+Lemma tpkt_mk_total h v : zlen h = 4 -> tpkt_check h = Ok v -> v = 3 /\ exists h', tpkt_mk v (tpkt_plen h) = Ok h'.
+Proof.
+  intros L. unfold tpkt_check. destruct (Z.eqb_spec (byte_at h 0) 3) as [E|E]; cbn [negb]; [|discriminate].
+  destruct (Z.ltb_spec (be_val (slice h 2 4)) 4); [discriminate|]. intros Q; apply Ok_inj in Q; subst v. split; [exact E|].
+  unfold tpkt_mk, tpkt_plen. rewrite E. cbn [Z.ltb Z.leb orb Z.compare Pos.compare Pos.compare_cont].
+  pose proof (slice_val_bound h 2 4 ltac:(lia) ltac:(lia)) as B. change (256 ^ (4 - 2)) with 65536 in B.
+  destruct (Z.leb_spec 65536 (be_val (slice h 2 4) - 4 + 4)); [lia|]. eauto.
+Qed.
+
+Lemma ovpn_mk_total h v : zlen h = 2 -> ovpn_check h = Ok v -> always v /\ exists h', ovpn_mk v (ovpn_plen h) = Ok h'.
+Proof.
+  intros L _. split; [exact I|]. unfold ovpn_mk, ovpn_plen. pose proof (be_val_range h) as B. rewrite L in B. change (256 ^ 2) with 65536 in B.
+  destruct (Z.leb_spec 65536 (be_val h)); [lia|]. eauto.
+Qed.
+
+Lemma pg_sslrequest_mk_total h v : zlen h = 8 -> pg_sslrequest_check h = Ok v -> always v /\ exists h', pg_sslrequest_mk v (zero_plen h) = Ok h'.
+Proof. intros _ _. split; [exact I|]. unfold pg_sslrequest_mk, zero_plen. cbn. eauto. Qed.
+Lemma pg_sync_mk_total h v : zlen h = 1 -> pg_sync_check h = Ok v -> always v /\ exists h', pg_sync_mk v (zero_plen h) = Ok h'.
+Proof. intros _ _. split; [exact I|]. unfold pg_sync_mk, zero_plen. cbn. eauto. Qed.
